@@ -249,6 +249,23 @@ func dstRun(args []string) int {
 			default:
 				prev, place = tr[0]-1, "last-second-before"
 			}
+			// a yearly schedule pinned to the transition's own calendar day and hour, approached from months earlier (the other
+			// side of the previous transition): the search jumps straight to the gap / overlap day with a different offset at prev
+			{
+				lt := time.Unix(tr[0]-1, 0).In(z.loc)
+				hh := (lt.Hour() + r.Intn(2)) % 24
+				mm := r.Intn(60)
+				fexpr := fmt.Sprintf("0 %d %d %d %d ?", mm, hh, lt.Day(), int(lt.Month()))
+				fprev := tr[0] - int64(60+r.Intn(200))*86400
+				if fprev > 0 {
+					ncases = append(ncases, ncase{len(ops), z, fexpr, tsp{}, fprev, "far-before", -2})
+					ops = append(ops, fmt.Sprintf("cron nextz %s %s %d", encRunes(fexpr), z.name, fprev*1e9))
+					impl = append(impl, "")
+					reqs = append(reqs, fmt.Sprintf("N %s %s %d", hexArg(fexpr), z.name, fprev*1e9))
+					dist["place"]["far-before"]++
+					dist["kind"]["nextz"]++
+				}
+			}
 			for c := 0; c < *chain; c++ {
 				// oracle: least instant > prev whose reading matches, within 9 days
 				want := firstMatch(z.loc, &sp, prev)
@@ -309,6 +326,25 @@ func dstRun(args []string) int {
 			}
 		}
 		// does a transition lie within a day of [prev, want]?
+		if c.want == -2 { // no per-second oracle for a yearly schedule: termination, sanity and (by the diff) the model decide
+			switch kind {
+			case "ok":
+				got, _ := strconv.ParseInt(f[1], 10, 64)
+				if got%1e9 != 0 || got/1e9 <= c.prev {
+					flagV("result is not a whole second strictly after prev")
+				}
+				nontrivial++
+			case "expired":
+			case "hang", "crash", "panic", "impure":
+				if len(viol) < 40 {
+					viol = append(viol, fmt.Sprintf("C06 NextFireTime did not return normally (%s): zone=%s expr=%q prev=%s", ans[i], c.z.name, c.expr, time.Unix(c.prev, 0).In(c.z.loc).Format(time.RFC3339)))
+				}
+				flagV("NextFireTime did not return normally")
+			default:
+				flagV("unexpected answer")
+			}
+			continue
+		}
 		want := c.want
 		near := false
 		for _, t := range c.z.trans {
